@@ -158,6 +158,18 @@ class Gen:
             return f"{base} .OR. {v2}{r.choice(ops)}{self.lit()}"
         if x < 0.42:
             return f".NOT.{base}"
+        if x < 0.56:
+            # three or four relational atoms joined by .AND. / .OR. in any mixture WITHOUT parentheses (precedence:
+            # .NOT. binds tighter than .AND., .AND. tighter than .OR.), an atom now and then negated
+            parts = [base]
+            for _ in range(r.randint(2, 3)):
+                v2 = r.choice(avail) if avail else "WGT"
+                atom = f"{v2}{r.choice(ops)}{self.lit()}"
+                if r.random() < 0.15:
+                    atom = f".NOT.{atom}"
+                op = r.choice([".AND.", ".OR.", " .AND. ", " .OR. "])
+                parts.append(op + atom)
+            return "".join(parts)
         return base
 
     # ------------------------------------------------------------------ statements
@@ -455,7 +467,7 @@ def _balanced_prefix(s):
 
 
 # ====================================================================================== whole models
-def gen_dataset(rng, advan, extra_cols, dose_kinds):
+def gen_dataset(rng, advan, extra_cols, dose_kinds, obs_cmts=()):
     """Event dataset rows (list of dict) for the model.  dose_kinds: {comp: kind} with kind in
     bolus / data_rate / Rn / Dn.  Returns (columns, rows)."""
     cols = ["ID", "TIME", "AMT", "DV"] + COVS + list(extra_cols)
@@ -482,7 +494,8 @@ def gen_dataset(rng, advan, extra_cols, dose_kinds):
             t += round(rng.uniform(0.5, 6), 1)
             row = {"ID": float(i), "TIME": t, "AMT": 0.0, "DV": round(rng.uniform(0.5, 30), 2), "WGT": wgt, "AGE": age}
             if "CMT" in extra_cols:
-                row["CMT"] = 0.0
+                # an observation record with CMT = n observes compartment n (scaled by its own Sn), CMT = 0 the default
+                row["CMT"] = float(rng.choice([0] + list(obs_cmts))) if obs_cmts else 0.0
             if "RATE" in extra_cols:
                 row["RATE"] = 0.0
             if "EVID" in extra_cols:
@@ -577,6 +590,10 @@ def gen_model(rng, strata=(), simple=False):
             recs_mid.append(_model_record(r, names, defdose, defobs))
             edges = _random_edges(r, ncomp)
             pkparams = [f"R{i}{j}" for (i, j) in edges]
+            # two additive first-order terms between the same ordered pair of compartments (R12 and R12B)
+            par_edges = [(i, j) for (i, j) in edges if j != 0 and r.random() < 0.25]
+            par_form = {e: r.choice(["separate", "factored"]) for e in par_edges}
+            pkparams += [f"R{i}{j}B" for (i, j) in par_edges]
             mm = r.random() < 0.3
             if mm:
                 pkparams += ["VMX", "KMX"]
@@ -599,12 +616,19 @@ def gen_model(rng, strata=(), simple=False):
             extra_cols.append("RATE")
         if r.random() < 0.3:
             extra_cols.append(r.choice(["EVID", "MDV"]))
+        obs_cmts = []
+        if use_cmt and ncomp >= 2 and r.random() < 0.5:
+            obs_cmts = r.sample(range(1, ncomp + 1), r.randint(1, min(2, ncomp)))
+        meta["obs_cmts"] = obs_cmts
         # ---- $PK
         n_theta_pk = len(pkparams)
         extras = []
         scale_comp = default_obs
         if r.random() < 0.6:
             extras.append(f"S{scale_comp}" if (r.random() < 0.7 or kind != "lib") else "SC")
+        for comp in obs_cmts:
+            if r.random() < 0.6:
+                extras.append(f"S{comp}")
         for comp in targets:
             if r.random() < 0.3:
                 extras.append(f"ALAG{comp}")
@@ -643,10 +667,17 @@ def gen_model(rng, strata=(), simple=False):
                     if a == i:
                         if mm and b == 0:
                             terms.append(f"- VMX*A({i})/(KMX + A({i}))")
+                        elif (a, b) in par_form:
+                            terms.append(f"- R{a}{b}*A({a}) - R{a}{b}B*A({a})" if par_form[(a, b)] == "separate"
+                                         else f"- (R{a}{b} + R{a}{b}B)*A({a})")
                         else:
                             terms.append(f"- R{a}{b}*A({a})")
                     if b == i:
-                        terms.append(f"+ R{a}{b}*A({a})")
+                        if (a, b) in par_form:
+                            terms.append(f"+ R{a}{b}*A({a}) + R{a}{b}B*A({a})" if par_form[(a, b)] == "separate"
+                                         else f"+ (R{a}{b} + R{a}{b}B)*A({a})")
+                        else:
+                            terms.append(f"+ R{a}{b}*A({a})")
                 if not terms:
                     terms = ["0"]
                 txt = " ".join(terms)
@@ -663,7 +694,8 @@ def gen_model(rng, strata=(), simple=False):
                ("\n" if any(x.startswith("$DES") for x in recs_mid) else "") + "$ERROR\n" + "\n".join(lines_err)
         recs_mid = [x for x in recs_mid if not x.startswith("$DES")]
         meta.update(dose_kinds=dose_kinds, default_obs=default_obs)
-    cols, rows = gen_dataset(r, meta.get("advan"), extra_cols, dose_kinds if kind != "pred" else {})
+    cols, rows = gen_dataset(r, meta.get("advan"), extra_cols, dose_kinds if kind != "pred" else {},
+                             meta.get("obs_cmts", ()) if kind != "pred" else ())
     omega = g.omega_records(n_eta, "$OMEGA")
     sigma = g.omega_records(n_eps, "$SIGMA", allow_same=False)
     text = "\n".join(
